@@ -176,6 +176,16 @@ def finish(col: Collector, tier: str, t0: float, explanation: str, level_rule: s
     }
     if extra_coverage:
         coverage.update(extra_coverage)
+        nv = extra_coverage.get("obligations_variants", 0)
+        if nv:
+            coverage["evaluations"] += nv
+            coverage["obligations"] += nv
+            coverage["discharged"] += extra_coverage.get("discharged_variants", 0)
+            coverage["distinct_nontrivial"] += nv
+            sv = extra_coverage.get("self_validation", {}).get("results", [])
+            coverage["samples"] = coverage["samples"][:40] + [f"variant[{r['kind']}] {r['variant']}: {r['status']}" + (f" by {r.get('rule')} at {r.get('where')}" if r.get("rule") else "")
+                                                              for r in sv[:25]]
+            coverage["rule"] += "; thorough tier: plus one obligation per AST-computed breaking variant (must be reported by the expected rule) and per benign twin (must stay silent)"
     evidence = {
         "property_id": pid,
         "tier": tier,
